@@ -239,6 +239,77 @@ def monitor_c08(scn, impl):
     return None
 
 
+def monitor_rr_trace(scn, impl):
+    """round robin, on the recorded sequence of vectors handed to the feasibility check: sessions are raised one
+    level at a time in priority (deque) order; a session leaves only when its next level was rejected at that
+    moment or it has no level left within its own bounds; the result is the last accepted vector"""
+    inf = scn["infra"]
+    tr = impl.get("rr_trace")
+    if scn["algo"] != "rr" or tr is None or impl["err"] is not None or impl["pre"] is None or impl["order"] is None:
+        return None
+    sess = scn["sessions"]
+    if len({s["st"] for s in sess}) != len(sess):
+        return None
+    by_sid = {s["sid"]: s for s in sess}
+    pre = {p[0]: p for p in impl["pre"]}
+    inc = scn["inc"]
+    levels = {}
+    for sid in impl["order"]:
+        s = by_sid[sid]
+        i = s["st"]
+        mn0, mx0 = pre[sid][1][0], pre[sid][2][0]
+        rap = (s["req"] - s["deliv"]) * 1000 / inf["volt"][i] * 60 / scn["period"]
+        lb, ub = max(0.0, mn0), min(mx0, inf["maxp"][i], rap)
+        if inf["cont"][i]:
+            base = [float(x) for x in np.arange(mn0, mx0 + inc / 2, inc)]
+        else:
+            base = list(inf["allow"][i])
+        # levels within 1e-9 of a bound are left to the ambiguity rule
+        levels[sid] = [a for a in base if lb <= a <= ub]
+    state = [0.0] * inf["N"]
+    for sid in impl["order"]:
+        lv = levels[sid]
+        state[by_sid[sid]["st"]] = lv[0] if lv else 0.0
+
+    def close(u, v):
+        return all(abs(a - b) <= 1e-9 * max(1.0, abs(a)) for a, b in zip(u, v))
+    if not tr or not close(tr[0][0], state):
+        return "round robin does not start from the first level of every session"
+    for vec, ok in tr:
+        exc, _ = exact_margin(inf, vec)
+        if ok and exc > 1e-6:
+            return "an intermediate round-robin state accepted by the check is infeasible by %.3g A" % exc
+        if (not ok) and exc < -1e-6:
+            return "a feasible intermediate round-robin state was rejected"
+    if not tr[0][1]:
+        return None
+    from collections import deque
+    dq = deque(impl["order"])
+    idx = {sid: 0 for sid in impl["order"]}
+    t = 1
+    while dq:
+        sid = dq.popleft()
+        i = by_sid[sid]["st"]
+        lv = levels[sid]
+        if idx[sid] < len(lv) - 1:
+            if t >= len(tr):
+                return "session %d left the queue although it has a level above %r within its bounds and it was never tried" % (sid, lv[idx[sid]])
+            want = list(state)
+            want[i] = lv[idx[sid] + 1]
+            if not close(tr[t][0], want):
+                return "step %d of round robin is not 'raise session %d by one level' (expected %r at station %d, checked vector %r)" % (t, sid, want[i], i, tr[t][0])
+            if tr[t][1]:
+                state = want
+                idx[sid] += 1
+                dq.append(sid)
+            t += 1
+    if t != len(tr):
+        return "round robin made %d feasibility checks, %d expected" % (len(tr), t)
+    if not close(impl["sched"], state):
+        return "the emitted schedule is not the last accepted round-robin state"
+    return None
+
+
 def monitor_unc(scn, impl):
     inf = scn["infra"]
     if impl["err"] is not None:
